@@ -333,6 +333,13 @@ class Fresh:
                 if cls == CACHED:
                     text = f"{show(stmt.target, 40)} {type(stmt.op).__name__}= .."
                     add(stmt, f"in-place {text}", cls, False, why, text, 'mutcall')
+                elif cls not in WRITABLE and isinstance(stmt.op, (ast.Add, ast.BitOr)) and \
+                        isinstance(stmt.value, (ast.List, ast.ListComp, ast.Set, ast.SetComp, ast.Dict, ast.DictComp, ast.Tuple)) and \
+                        not isinstance(stmt.value, ast.Tuple):
+                    # `x += [..]` / `x |= {..}` extends the object x names in place: with x an alias of a parameter the
+                    # caller's list grows (`substances = solute; substances += [solvent]`)
+                    text = f"{show(stmt.target, 40)} {type(stmt.op).__name__}= {show(stmt.value, 30)}"
+                    add(stmt, f"in-place {text}", cls, False, why, text, 'mutcall')
         # closures at their registration sites
         for call, stmt, before in ff.registrations:
             for a in list(call.args) + [k.value for k in call.keywords]:
